@@ -2,7 +2,7 @@
    check_case re-runs the model and compares. *)
 From Coq Require Import List Arith ZArith Bool NArith.
 Import ListNotations.
-Require Import FV.Base.Util FV.Gen.C20 FV.C20.Model.
+Require Import FV.Base.Util FV.Gen.C20 FV.C20.Model FV.C20.ConcModel.
 
 (* exception classes as observed on the implementation *)
 Inductive oexn := XValue | XType | XKey | XOther.
@@ -35,6 +35,27 @@ Fixpoint route_check (mods : list name) (t : table) (ops : list op) (os : list r
   | _, _ => false
   end.
 
+(* shorthand used by the case encoder for the names of dated log files, "<root>-YYYY-MM-DD.log" with zero padded decimal
+   numbers (shorter shard files); the encoder uses it only for names that it reproduces exactly *)
+Definition dig (n : N) : N := (48 + n mod 10)%N.
+Definition date_str (y m d : N) : name :=
+  [dig (y / 1000); dig (y / 100); dig (y / 10); dig y; 45; dig (m / 10); dig m; 45; dig (d / 10); dig d]%N.
+Definition dlog (root : name) (y m d : N) : name := log_name root (date_str y m d).
+Example dlog_example :
+  dlog [102; 114]%N 2024 1 31 = [102; 114; 45; 50; 48; 50; 52; 45; 48; 49; 45; 51; 49; 46; 108; 111; 103]%N.
+Proof. vm_compute. reflexivity. Qed.
+
+(* short constructors for the case encoder *)
+Definition ef (n : name) : entry := {| e_name := n; e_file := true |}.
+Definition ed (n : name) : entry := {| e_name := n; e_file := false |}.
+Definition rb (x : option oexn) (s : list (conn * list (name * name))) : robs := {| r_exc := x; r_sent := s |}.
+Definition r0 : robs := rb None [].
+
+(* the level table mlzlog + frappy give on the pinned tree, as a literal: cases whose observed table is this one refer to
+   it by name (shorter shard files); it is still compared with the model's log_levels in every case *)
+Definition std_levels : list (name * Z) :=
+  [(s_debug, 10%Z); (s_info, 20%Z); (s_warning, 30%Z); (s_error, 40%Z); (s_off, 99%Z); (s_comlog, 15%Z)].
+
 Definition lv_eqb (a b : name * Z) : bool := name_eqb (fst a) (fst b) && Z.eqb (snd a) (snd b).
 
 Definition entry_eqb (a b : entry) : bool := name_eqb (e_name a) (e_name b) && Bool.eqb (e_file a) (e_file b).
@@ -50,9 +71,108 @@ Fixpoint rot_check (prefix : name) (n : nat) (d : dir) (steps : list rstep) : bo
       negb (s_raised s) && list_eqb entry_eqb (sort d') (s_listing s) && rot_check prefix n d' r
   end.
 
+(* ------------------------------------------------------------------ concurrent cases *)
+Definition exn_eqb (a b : exn) : bool :=
+  match a, b with EValue, EValue | EType, EType | EKey, EKey => true | _, _ => false end.
+
+Definition top_eqb (a b : top) : bool :=
+  match a, b with
+  | TSetDefault m, TSetDefault m' => name_eqb m m'
+  | TSet m c lv, TSet m' c' lv' => name_eqb m m' && Nat.eqb c c' && Z.eqb lv lv'
+  | TPop m c, TPop m' c' => name_eqb m m' && Nat.eqb c c'
+  | _, _ => false
+  end.
+
+Definition aop_eqb (a b : aop) : bool :=
+  match a, b with
+  | AAcq, AAcq => true
+  | ARel e, ARel e' => opt_eqb exn_eqb e e'
+  | ATab o, ATab o' => top_eqb o o'
+  | AGet m f, AGet m' f' => name_eqb m m' && Bool.eqb f f'
+  | ANext m lv py c lev s, ANext m' lv' py' c' lev' s' =>
+      name_eqb m m' && Z.eqb lv lv' && name_eqb py py' && Nat.eqb c c' && Z.eqb lev lev' && opt_name_eqb s s'
+  | AEnd e, AEnd e' => Bool.eqb e e'
+  | _, _ => false
+  end.
+
+(* a thread of a concurrent case: a connection thread (its operations, and the exception class every operation ended
+   with on the implementation), or a module thread emitting records (m, lv, python level name) together with the reader
+   steps it was observed to make (what a dict iterator yields while the dict is modified is CPython data) *)
+Inductive cthread :=
+| TConn (ops : list op) (excs : list (option oexn))
+| TEmit (recs : list (name * Z * name)) (prog : list aop).
+
+(* the reader steps of one record: ANext ... ANext AEnd, all for this record *)
+Fixpoint emit_nexts (m : name) (lv : Z) (py : name) (p : list aop) : option (list aop) :=
+  match p with
+  | ANext m' lv' py' _ _ _ :: r =>
+      if name_eqb m' m && Z.eqb lv' lv && name_eqb py' py then emit_nexts m lv py r else None
+  | AEnd _ :: r => Some r
+  | _ => None
+  end.
+
+(* handle per record: the lookup fails and nothing else happens, or it succeeds and the loop runs *)
+Fixpoint emit_prog_ok (recs : list (name * Z * name)) (p : list aop) : bool :=
+  match recs with
+  | [] => match p with [] => true | _ => false end
+  | (m, lv, py) :: rr =>
+      match p with
+      | AGet m' false :: r => name_eqb m' m && emit_prog_ok rr r
+      | AGet m' true :: r =>
+          name_eqb m' m && match emit_nexts m lv py r with Some r' => emit_prog_ok rr r' | None => false end
+      | _ => false
+      end
+  end.
+
+Definition op_exn (mods : list name) (o : op) : option exn :=
+  match o with
+  | OLogging c spec d => snd (logging_ops mods c spec d)
+  | _ => None
+  end.
+
+Fixpoint excs_ok (mods : list name) (ops : list op) (xs : list (option oexn)) : bool :=
+  match ops, xs with
+  | [], [] => true
+  | o :: ops', x :: xs' => exn_matches (op_exn mods o) x && excs_ok mods ops' xs'
+  | _, _ => false
+  end.
+
+Definition thread_prog (mods : list name) (th : cthread) : list aop :=
+  match th with TConn ops _ => conn_prog mods ops | TEmit _ p => p end.
+Definition thread_ok (mods : list name) (th : cthread) : bool :=
+  match th with TConn ops xs => excs_ok mods ops xs | TEmit recs p => emit_prog_ok recs p end.
+
+(* one observed atomic operation (thread, operation): it must be the next step of that thread in the model, enabled, and
+   the model executes it *)
+Definition cstep_obs (sb : cstate * bool) (ev : nat * aop) : cstate * bool :=
+  let '(s, ok) := sb in
+  match nth_error (c_progs s) (fst ev) with
+  | Some (a :: _) => (cstep s (fst ev), ok && aop_eqb a (snd ev) && enabled (c_lock s) a)
+  | _ => (s, false)
+  end.
+
+Definition subs_eqb (a b : subs) : bool := list_eqb (pair_eqb Nat.eqb Z.eqb) a b.
+Definition table_eqb (a b : table) : bool := list_eqb (pair_eqb name_eqb subs_eqb) a b.
+
+Definition conc_final (mods : list name) (t0 : table) (threads : list cthread) (events : list (nat * aop)) : cstate * bool :=
+  fold_left cstep_obs events (init (map (thread_prog mods) threads) t0, true).
+
+Definition conc_check (mods : list name) (pre : list op) (pre_obs : list robs) (threads : list cthread)
+    (events : list (nat * aop)) (final : table) (sweep : list op) (sweep_obs : list robs) : bool :=
+  let t0 := run mods pre in
+  let '(st, ok) := conc_final mods t0 threads events in
+  route_check mods [] pre pre_obs
+  && forallb (thread_ok mods) threads
+  && ok && c_ok st && all_done st
+  && match c_lock st with None => true | Some _ => false end
+  && table_eqb (c_table st) final
+  && route_check mods (c_table st) sweep sweep_obs.
+
 Inductive case :=
 | CRoute (levels : list (name * Z)) (mods : list name) (ops : list op) (obs : list robs)
-| CRot (prefix : name) (max_days : nat) (init : dir) (date0 : name) (listing0 : list entry) (steps : list rstep).
+| CRot (prefix : name) (max_days : nat) (init : dir) (date0 : name) (listing0 : list entry) (steps : list rstep)
+| CConc (levels : list (name * Z)) (mods : list name) (pre : list op) (pre_obs : list robs) (threads : list cthread)
+        (events : list (nat * aop)) (final : table) (sweep : list op) (sweep_obs : list robs).
 
 Definition check_case (c : case) : bool :=
   match c with
@@ -61,6 +181,8 @@ Definition check_case (c : case) : bool :=
   | CRot prefix n init date0 l0 steps =>
       let d0 := open_file init (log_name prefix date0) in
       list_eqb entry_eqb (sort d0) l0 && rot_check prefix n d0 steps
+  | CConc levels mods pre pre_obs threads events final sweep sweep_obs =>
+      list_eqb lv_eqb levels log_levels && conc_check mods pre pre_obs threads events final sweep sweep_obs
   end.
 
 (* what the model does, for diagnosis in replay files *)
@@ -77,10 +199,15 @@ Fixpoint rot_trace (prefix : name) (n : nat) (d : dir) (steps : list rstep) : li
   end.
 Inductive model_out :=
 | MRoute (x : list (list delivery * option exn))
-| MRot (l0 : list entry) (x : list (bool * list entry)).
+| MRot (l0 : list entry) (x : list (bool * list entry))
+| MConc (steps_followed : bool) (readers_ok : bool) (remaining : list (list aop)) (t : table)
+        (x : list (list delivery * option exn)).
 Definition model_result (c : case) : model_out :=
   match c with
   | CRoute _ mods ops _ => MRoute (route_trace mods [] ops)
   | CRot prefix n init date0 _ steps =>
       let d0 := open_file init (log_name prefix date0) in MRot (sort d0) (rot_trace prefix n d0 steps)
+  | CConc _ mods pre _ threads events _ sweep _ =>
+      let '(st, ok) := conc_final mods (run mods pre) threads events in
+      MConc ok (c_ok st) (c_progs st) (c_table st) (route_trace mods (c_table st) sweep)
   end.
